@@ -100,6 +100,13 @@ int nsync_mu_semaphore_p_with_deadline (nsync_semaphore *s, nsync_time abs_deadl
 				if (FUTEX_TIMEOUT_IS_ABSOLUTE) {
 					ts_buf.tv_sec = NSYNC_TIME_SEC (abs_deadline);
 					ts_buf.tv_nsec = NSYNC_TIME_NSEC (abs_deadline);
+					if (ts_buf.tv_sec < 0) {
+						/* The kernel rejects times before the
+						   epoch with EINVAL; any such deadline
+						   has already passed.  */
+						ts_buf.tv_sec = 0;
+						ts_buf.tv_nsec = 0;
+					}
 				} else {
 					nsync_time now;
 					now = nsync_time_now ();
